@@ -1,9 +1,20 @@
 import HecsModel.Model.Containers
+import HecsModel.Lemmas.CmdBuf
 /-
-  C11 — CommandBuffer replay equals direct application, in recorded order. (interim)
+  C11 — CommandBuffer replay equals direct application, in recorded order.
+
+  Definitions (in `Lemmas/CmdBuf.lean`):
+    `HCmd`                 the high-level log entry (`spawn b | insert e b | remove e ts | despawn e`)
+    `HCmd.bundle`          the component values a log entry owns
+    `HCmd.ofBundle e b`    `spawn b` for `e = none`, `insert e' b` for `e = some e'`
+    `CmdBuf.recorded c`    the log: every `Cmd` with its range read out through `rangeVals`
+    `RangesOk c`           every recorded range `[f, l)` has `f ≤ l ≤ slots.length`
+    `RangesPartition c`    the recorded ranges are consecutive and cover `[0, slots.length)`
+    `applyDirect w h`      the direct `World` call for a log entry: (world, dropped, spawned)
+    `applyAll hs w`        left fold of `applyDirect`, concatenating drops and handles in order
 -/
 namespace Hecs.Props.C11
-open Hecs
+open Hecs Hecs.CmdBufLemmas
 
 /-- after `run_on` the buffer is empty and reusable -/
 theorem runOn_empties (c : CmdBuf) (w : World) :
@@ -13,5 +24,154 @@ theorem runOn_empties (c : CmdBuf) (w : World) :
 /-- a cleared or dropped buffer drops exactly the recorded components -/
 theorem clear_drops_recorded (c : CmdBuf) : (c.clear).2 = c.arena.vals ∧ (c.clear).1.cmds = [] := by
   simp [CmdBuf.clear]
+
+/-! ### 9. recording -/
+
+theorem rangesOk_empty : RangesOk {} := CmdBufLemmas.rangesOk_empty
+
+theorem rangesOk_record (lay : Nat → TyLayout) (c : CmdBuf) (e : Option Entity) (b : List Comp)
+    (h : RangesOk c) : RangesOk (c.record lay e b) :=
+  CmdBufLemmas.rangesOk_record lay c e b h
+
+theorem rangesOk_recRemove (c : CmdBuf) (e : Entity) (ts : List Nat) (h : RangesOk c) :
+    RangesOk (c.recRemove e ts) :=
+  CmdBufLemmas.rangesOk_recRemove c e ts h
+
+theorem rangesOk_recDespawn (c : CmdBuf) (e : Entity) (h : RangesOk c) : RangesOk (c.recDespawn e) :=
+  CmdBufLemmas.rangesOk_recDespawn c e h
+
+/-- the command pushed by `record` and the size of the new range -/
+theorem record_cmds (lay : Nat → TyLayout) (c : CmdBuf) (e : Option Entity) (b : List Comp) :
+    (c.record lay e b).cmds =
+        c.cmds ++ [.spawnOrInsert e c.arena.slots.length (c.arena.slots.length + b.length)] ∧
+      (c.record lay e b).arena.slots.length = c.arena.slots.length + b.length ∧
+      (c.record lay e b).arena.slots.take c.arena.slots.length = c.arena.slots :=
+  ⟨CmdBufLemmas.record_cmds lay c e b, record_slots_length lay c e b, record_slots_prefix lay c e b⟩
+
+/-- earlier ranges are untouched by `record` -/
+theorem record_rangeVals_old (lay : Nat → TyLayout) (c : CmdBuf) (e : Option Entity) (b : List Comp)
+    (f l : Nat) (h : l ≤ c.arena.slots.length) :
+    (c.record lay e b).rangeVals f l = c.rangeVals f l :=
+  CmdBufLemmas.record_rangeVals_old lay c e b f l h
+
+/-- the new range holds the bundle sorted by type: exactly `canon b` -/
+theorem record_rangeVals_new (lay : Nat → TyLayout) (c : CmdBuf) (e : Option Entity) (b : List Comp) :
+    (c.record lay e b).rangeVals c.arena.slots.length (c.arena.slots.length + b.length) = canon b :=
+  CmdBufLemmas.record_rangeVals_new lay c e b
+
+/-- `canon b` is a copy of `b` permuted into type order -/
+theorem canon_perm_sorted (b : List Comp) :
+    (canon b).Perm b ∧ (canon b).Pairwise (fun x y => x.1 ≤ y.1) :=
+  ⟨canon_perm b, canon_sorted_le b⟩
+
+/-- recording a bundle appends one entry to the log and leaves the earlier entries alone -/
+theorem record_recorded (lay : Nat → TyLayout) (c : CmdBuf) (e : Option Entity) (b : List Comp)
+    (h : RangesOk c) :
+    (c.record lay e b).recorded = c.recorded ++ [HCmd.ofBundle e (canon b)] :=
+  CmdBufLemmas.record_recorded lay c e b h
+
+theorem recRemove_recorded (c : CmdBuf) (e : Entity) (ts : List Nat) :
+    (c.recRemove e ts).recorded = c.recorded ++ [.remove e ts] :=
+  CmdBufLemmas.recRemove_recorded c e ts
+
+theorem recDespawn_recorded (c : CmdBuf) (e : Entity) :
+    (c.recDespawn e).recorded = c.recorded ++ [.despawn e] :=
+  CmdBufLemmas.recDespawn_recorded c e
+
+theorem recorded_empty : ({} : CmdBuf).recorded = [] := rfl
+
+/-! ### 10. replay -/
+
+/-- replay = the fold of direct application over the log: world, drops (in order) and spawned
+handles (in order) all coincide; the buffer comes back empty with its allocation -/
+theorem runOn_eq_fold (c : CmdBuf) (w : World) :
+    c.runOn w =
+      ({ cmds := [], arena := { c.arena with slots := [], cursor := 0 } }, applyAll c.recorded w) :=
+  CmdBufLemmas.runOn_eq_fold c w
+
+/-- component-wise form -/
+theorem runOn_components (c : CmdBuf) (w : World) :
+    (c.runOn w).2.1 = (applyAll c.recorded w).1 ∧
+      (c.runOn w).2.2.1 = (applyAll c.recorded w).2.1 ∧
+      (c.runOn w).2.2.2 = (applyAll c.recorded w).2.2 ∧
+      (c.runOn w).1.arena.laySize = c.arena.laySize ∧ (c.runOn w).1.arena.layAlign = c.arena.layAlign := by
+  rw [runOn_eq_fold]; exact ⟨rfl, rfl, rfl, rfl, rfl⟩
+
+theorem applyAll_nil (w : World) : applyAll [] w = (w, [], []) := rfl
+
+/-- the fold processes the log front to back -/
+theorem applyAll_snoc (hs : List HCmd) (h : HCmd) (w : World) :
+    applyAll (hs ++ [h]) w = applyStep (applyAll hs w) h := by
+  simp [applyAll, List.foldl_append]
+
+/-- a spawned bundle may equally be applied unsorted: `World::spawn` canonicalises it itself -/
+theorem spawn_canon (w : World) (b : List Comp) :
+    applyDirect w (.spawn (canon b)) = applyDirect w (.spawn b) :=
+  applyDirect_spawn_canon w b
+
+/-- recording a duplicate-free bundle keeps the log well-formed (`LogWF`: every recorded bundle
+names each component type once) -/
+theorem record_logWF (lay : Nat → TyLayout) (c : CmdBuf) (e : Option Entity) (b : List Comp)
+    (h : RangesOk c) (hl : LogWF c.recorded) (hb : (b.map (·.1)).Nodup) :
+    LogWF (c.record lay e b).recorded := by
+  rw [record_recorded lay c e b h]
+  apply logWF_snoc _ _ hl
+  rw [ofBundle_bundle]
+  exact (((canon_perm b).map (·.1)).nodup_iff).2 hb
+
+theorem recRemove_logWF (c : CmdBuf) (e : Entity) (ts : List Nat) (hl : LogWF c.recorded) :
+    LogWF (c.recRemove e ts).recorded := by
+  rw [recRemove_recorded]; exact logWF_snoc _ _ hl (by simp [HCmd.bundle])
+
+theorem recDespawn_logWF (c : CmdBuf) (e : Entity) (hl : LogWF c.recorded) :
+    LogWF (c.recDespawn e).recorded := by
+  rw [recDespawn_recorded]; exact logWF_snoc _ _ hl (by simp [HCmd.bundle])
+
+/-- the world keeps its representation invariant through a replay -/
+theorem runOn_inv (c : CmdBuf) (w : World) (hl : LogWF c.recorded) (hw : w.Inv) :
+    (c.runOn w).2.1.Inv := by
+  rw [runOn_eq_fold]
+  exact applyAll_inv c.recorded hl w hw
+
+theorem runOn_reusable (c : CmdBuf) (w : World) :
+    RangesOk (c.runOn w).1 ∧ RangesPartition (c.runOn w).1 ∧ (c.runOn w).1.recorded = [] :=
+  ⟨rangesOk_runOn c w, rangesPartition_runOn c w, rfl⟩
+
+/-! ### 11. the ledger -/
+
+theorem clear_ledger (c : CmdBuf) : (c.clear).2 = c.arena.vals := rfl
+
+theorem clear_reusable (c : CmdBuf) :
+    RangesOk (c.clear).1 ∧ RangesPartition (c.clear).1 ∧ (c.clear).1.recorded = [] :=
+  ⟨rangesOk_clear c, rangesPartition_clear c, rfl⟩
+
+theorem rangesPartition_empty : RangesPartition {} := CmdBufLemmas.rangesPartition_empty
+
+theorem rangesPartition_record (lay : Nat → TyLayout) (c : CmdBuf) (e : Option Entity) (b : List Comp)
+    (h : RangesPartition c) : RangesPartition (c.record lay e b) :=
+  CmdBufLemmas.rangesPartition_record lay c e b h
+
+theorem rangesPartition_recRemove (c : CmdBuf) (e : Entity) (ts : List Nat) (h : RangesPartition c) :
+    RangesPartition (c.recRemove e ts) :=
+  CmdBufLemmas.rangesPartition_recRemove c e ts h
+
+theorem rangesPartition_recDespawn (c : CmdBuf) (e : Entity) (h : RangesPartition c) :
+    RangesPartition (c.recDespawn e) :=
+  CmdBufLemmas.rangesPartition_recDespawn c e h
+
+/-- the partition invariant implies the range bound -/
+theorem rangesPartition_rangesOk (c : CmdBuf) (h : RangesPartition c) : RangesOk c :=
+  CmdBufLemmas.rangesPartition_rangesOk c h
+
+/-- the stored values are exactly the bundles of the log, in order: every recorded component is
+in exactly one range (nothing is dropped twice, nothing leaks) -/
+theorem recorded_ledger (c : CmdBuf) (h : RangesPartition c) :
+    c.arena.vals = c.recorded.flatMap HCmd.bundle :=
+  CmdBufLemmas.recorded_ledger c h
+
+/-- hence `clear`/drop releases exactly the bundles of the log -/
+theorem clear_drops_log (c : CmdBuf) (h : RangesPartition c) :
+    (c.clear).2 = c.recorded.flatMap HCmd.bundle :=
+  CmdBufLemmas.recorded_ledger c h
 
 end Hecs.Props.C11
